@@ -49,7 +49,7 @@ SPECS["C01"] = dict(
     title="HCOBS round trip: decoding an encoded message returns the original bytes",
     lean_modules=[],
     theorems=[],
-    families=[dict(name="hcobs_enc", quick=8000, thorough=300000, search=40000), dict(name="hcobs_dec", quick=8000, thorough=300000, search=40000)],
+    families=[dict(name="hcobs_enc", quick=8000, thorough=200000, search=40000), dict(name="hcobs_dec", quick=8000, thorough=200000, search=40000)],
     vtags=["C01"],
     technique="Lean 4 proof (batch spec round trip; incremental encoder/decoder refine the spec for every segmentation) + model/implementation correspondence",
     design_ref="DESIGN.md section 5, C01; appendix A.1",
@@ -69,7 +69,7 @@ SPECS["C02"] = dict(
     title="HCOBS output never contains the stuff sequence, is split-independent, bounded",
     lean_modules=[],
     theorems=[],
-    families=[dict(name="hcobs_enc", quick=8000, thorough=300000, search=40000)],
+    families=[dict(name="hcobs_enc", quick=8000, thorough=200000, search=40000)],
     vtags=["C02"],
     technique="Lean 4 proof (no FE FD in Spec.encode, implementation = spec for every segmentation, exact length formula) + model/implementation correspondence",
     design_ref="DESIGN.md section 5, C02; appendix A.1",
@@ -87,7 +87,7 @@ SPECS["C07"] = dict(
     title="HCOBS wire format: canonical encoder, decoder accepts exactly the format",
     lean_modules=[],
     theorems=[],
-    families=[dict(name="hcobs_enc", quick=8000, thorough=300000, search=40000), dict(name="hcobs_dec", quick=8000, thorough=300000, search=40000)],
+    families=[dict(name="hcobs_enc", quick=8000, thorough=200000, search=40000), dict(name="hcobs_dec", quick=8000, thorough=200000, search=40000)],
     vtags=["C07"],
     technique="Lean 4 proof (encoder = canonical encoding, decoder accepts iff well-formed, literal wire constants) + model/implementation correspondence",
     design_ref="DESIGN.md section 5, C07; appendix A.1",
